@@ -1,1 +1,145 @@
-"""placeholder"""
+"""C07 - load balancing: one branch per frame, ordered duplicate-free rejoin (necessary structural conditions)."""
+
+from __future__ import annotations
+
+import ast
+import re
+
+from . import rule
+from .zmq import anchors, Z, ret_const, stmt_list_containing
+from .c01 import sync_region
+from .c02 import data_publishes
+from .c03 import _is_hello
+from .c04 import recv_loop_paths
+from ..model import Unresolved, walk_scope, parent, enclosing_function, qualname
+from ..paths import U, Path, Evaluator
+from .. import q
+
+
+@rule('C07.R1', 'one branch per frame: a balanced publish goes out on exactly one PUB socket, chosen among outputs whose clients all asked; otherwise on all')
+def r1(rr, repo):
+    za = anchors(repo)
+    nb = nu = 0
+    for p in za.paths('maybe'):
+        pubs = data_publishes(p)
+        if not pubs:
+            continue
+        bal = p.facts.get('truthy(self.balance)')
+        for e in pubs:
+            m = re.match(r'__elem__\((.*)\)\.send_multipart$', e.term, re.S)
+            if not m:
+                rr.unresolved('data publish not inside a loop over sockets', za.mod, e.node, witness=e.term[:120], key='pub-shape')
+                continue
+            it = m.group(1)
+            if bal is True:
+                nb += 1
+                try:
+                    node = ast.parse(it, mode='eval').body
+                except SyntaxError:
+                    node = None
+                one = isinstance(node, ast.List) and len(node.elts) == 1 and not isinstance(node.elts[0], ast.Starred)
+                rr.ob('balanced: the data message is published on a one-element socket list', one, za.mod, e.node, witness=it[:200], key='bal-one-pub')
+                if one:
+                    sel = U(node.elts[0])
+                    ok = sel.startswith('self.pubs[self.pulls.index(') and 'min(' in sel
+                    rr.ob('balanced: that socket is the PUB paired with the chosen PULL (self.pubs[self.pulls.index(out_pull)])', ok, za.mod, e.node, witness=sel[:200], key='bal-pub-paired')
+                    comp = [n for n in ast.walk(node) if isinstance(n, ast.ListComp)]
+                    okc = any(any('out_do_send and out_nrequested' == U(i) for g in c.generators for i in g.ifs) for c in comp)
+                    rr.ob('balanced: candidates are outputs that are ready and have a requesting client (out_do_send and out_nrequested)', okc, za.mod, e.node, key='bal-candidates')
+            elif bal is False:
+                nu += 1
+                rr.ob('unbalanced: the data message is published on every socket (self.pubs)', it == 'self.pubs', za.mod, e.node, witness=it[:120], key='unbal-all-pubs')
+    rr.floor('balanced data publishes', nb, 1, za.mod, za.S_maybe)
+    rr.floor('unbalanced data publishes', nu, 1, za.mod, za.S_maybe)
+
+
+@rule('C07.R2', 'a balanced receiver reads one source at a time: after a data message the other sources leave the poller and already-polled events are dropped; no cross-source reset under balance')
+def r2(rr, repo):
+    za = anchors(repo)
+    call, lst, _, _ = sync_region(za)
+    ev = za.ev()
+    ps = ev.run(lst, za.start(za.R_once))
+    rr.paths += len(ps)
+    n = 0
+    topic = None
+    for c in q.attr_calls(za.R_pm, 'new_recv') + q.attr_calls(za.R_pm, 'init_recvd'):
+        if len(c.args) >= 2 and isinstance(c.args[1], ast.Name):
+            topic = c.args[1].id
+    for p in ps:
+        bal = p.facts.get('truthy(self.balance)')
+        if bal is not True or p.outcome is not None:
+            continue
+        resets = [e for e in p.events if e.kind == 'call' and e.term.endswith('.new_recv') and '__elem__' in e.term]
+        rr.ob('balanced: a newer id from one source does not reset the others (they carry other frames)', not resets, za.mod, resets[0].node if resets else call, witness=p.pc_text(), key='bal-no-reset')
+        tp = p.facts.get(f'truthy({topic})')
+        if tp is True:
+            n += 1
+            drop = [e for e in p.events if e.kind == 'bind' and e.term == 'socks' and e.args[0] == 'None']
+            rr.ob('balanced: events already polled from other sources are dropped (socks = None)', bool(drop), za.mod, call, witness=p.pc_text(), key='bal-drop-polled')
+            other = [v for kk, v in p.facts.items() if kk.startswith('is(') and '__elem__' in kk]
+            inp = [v for kk, v in p.facts.items() if kk.startswith('in(') and kk.endswith(', self.poller)')]
+            if other and other[-1] is False and inp and inp[-1] is True:
+                un = [e for e in p.events if e.kind == 'call' and e.term.endswith('.unregister')]
+                rr.ob('balanced: every other registered source is unregistered after a data message', bool(un), za.mod, call, witness=p.pc_text(), key='bal-unregister-others')
+    rr.floor('balanced data-message paths', n, 1, za.mod, call)
+
+
+@rule('C07.R3', 'the first hop after a split never prefetches, and the balanced mark travels (and is incremented) in the envelope')
+def r3(rr, repo):
+    za = anchors(repo)
+    loop, paths = recv_loop_paths(za)
+    n = 0
+    for p in paths:
+        if p.facts.get('truthy(got_all)') is not True:
+            continue
+        rq = [e for e in p.events if e.kind == 'call' and e.term in (za.R_req.name, f'<def {za.R_req.name}>')]
+        if rq:
+            n += 1
+            pc = p.pc[:rq[0].pc_len]
+            ll = [v for kk, v in pc if kk == 'truthy(self.low_latency)']
+            b1 = [v for kk, v in pc if kk in ('eq(1, balanced)', 'eq(balanced, 1)')] + [v == '=' for kk, v in pc if kk in ('ord(1, balanced)', 'ord(balanced, 1)')]
+            rr.ob('prefetch only when not low-latency', bool(ll) and ll[-1] is False, za.mod, rq[0].node, witness=p.pc_text(rq[0].pc_len), key='prefetch-lowlat')
+            rr.ob('prefetch only when the set did not come straight from a balancing split (balanced != 1)', bool(b1) and b1[-1] is False, za.mod, rq[0].node, witness=p.pc_text(rq[0].pc_len), key='prefetch-bal1')
+            rr.ob('the prefetch asks for the id after the one being returned (request(min_recv_id))', rq[0].args and rq[0].args[0] == 'min_recv_id', za.mod, rq[0].node, witness=str(rq[0].args), key='prefetch-id')
+    rr.floor('prefetching paths', n, 1, za.mod, loop)
+    k = 0
+    for p in za.paths('maybe'):
+        if not data_publishes(p) and not [e for e in p.events if e.kind == 'store' and e.term == 'self.min_send_id']:
+            continue
+        bal = p.facts.get('truthy(self.balance)')
+        bald = p.facts.get('truthy(balanced)')
+        st = [e for e in p.events if e.kind == 'store' and re.search(r"\['bal'\]$", e.term)]
+        if bal is True or bald is True:
+            k += 1
+            ok = bool(st) and st[-1].args[0].replace(' ', '') in ('self.balanceorbalanced+1',)
+            rr.ob("a publish under balancing (own or inherited) marks the envelope: env['bal'] = balance or balanced + 1", ok, za.mod, st[-1].node if st else za.S_maybe, witness=st[-1].args[0] if st else p.pc_text(), key='env-bal')
+        elif bal is False and bald is False:
+            rr.ob('no balanced mark without balancing', not st, za.mod, st[0].node if st else za.S_maybe, key='env-nobal')
+    rr.floor('publishes under balancing', k, 1, za.mod, za.S_maybe)
+    # the receiver hands the mark on: ZMQStateSend(min_recv_id, balanced)
+    rets = [n_ for n_ in walk_scope(za.R_recv) if isinstance(n_, ast.Return) and isinstance(n_.value, ast.Tuple) and len(n_.value.elts) == 2]
+    for r in rets:
+        st = r.value.elts[1]
+        rr.ob('recv() hands the balanced mark to the coupled sender (ZMQStateSend(id, balanced))', isinstance(st, ast.Call) and len(st.args) >= 2 and U(st.args[1]) == 'balanced', za.mod, r, key='state-bal')
+
+
+@rule('C07.R4', 'older ids are discarded at the rejoin (shares C02.R1 / C02.R2)')
+def r4(rr, repo):
+    from .c02 import r1 as c02r1, r2 as c02r2
+    c02r1(rr, repo)
+    c02r2(rr, repo)
+
+
+@rule('C07.R5', 'under balance a scheduled HELLO is always sent to every output, because the data message reaches only one')
+def r5(rr, repo):
+    za = anchors(repo)
+    n = 0
+    for p in za.paths('maybe'):
+        if p.facts.get('truthy(do_hello)') is True and p.facts.get('truthy(self.balance)') is True:
+            n += 1
+            hello = [e for e in p.events if e.kind == 'call' and e.term.endswith('.send_multipart') and e.value.args and _is_hello(e.value.args[0])]
+            zero = any(e.kind == 'for' and e.term == 'self.pubs' and e.args[0] == 'zero' for e in p.events)
+            if zero:
+                continue
+            rr.ob('balanced: HELLO goes out on self.pubs whatever else is sent', bool(hello) and all(e.term == '__elem__(self.pubs).send_multipart' for e in hello), za.mod, za.S_maybe, witness=p.pc_text()[:300], key='hello-balanced')
+    rr.floor('balanced paths with a scheduled HELLO', n, 1, za.mod, za.S_maybe)
